@@ -219,8 +219,8 @@ def run(cfg, ctx):
     u = Unroll(b)
     step = _step(cfg)
     model, asm, per_cycle, wit = None, [], [], {}
-    # Known finding C23 (ILVT memories with write granularity and >= 2 write ports): a PARTIAL write through port k to a row whose
-    # live bank is another one leaves the other granules stale.  For this shape the history predicate `trig` ("such a write happened
+    # Known finding C23 (ILVT memories with write granularity and >= 2 write ports): a PARTIAL write through port k to a row that
+    # holds data and whose live bank is another one leaves the other granules stale.  For this shape the history predicate `trig` ("such a write happened
     # in an earlier cycle") is tracked beside the design; the obligations are decided under NOT trig (anything found there is a
     # violation of its own), and one extra query without the restriction reports the known finding - deterministically, whatever
     # model the solver picks.
@@ -228,6 +228,9 @@ def run(cfg, ctx):
     nw, depth = cfg["nw"], cfg["depth"]
     lb = max((nw - 1).bit_length(), 1)
     live = [z3.BitVecVal(0, lb) for _ in range(depth)]     # data and live-value table start in bank 0
+    # with an all-zero initial content a row that was never written is zero in EVERY bank, so the first partial write to it is
+    # still exact in the real design; only rows that hold data count for the trigger
+    holds_data = [z3.BoolVal(cfg.get("init") != "zero") for _ in range(depth)]
     trig = z3.BoolVal(False)
     unrestricted = []
     for t in range(K):
@@ -243,8 +246,9 @@ def run(cfg, ctx):
                 en, ad = o.sig(f"w{j}.en"), o.sig(f"w{j}.addr")
                 for row in range(depth):
                     hit = z3.And(en != 0, ad == row)
-                    now.append(z3.And(hit, en != full, live[row] != j))
+                    now.append(z3.And(hit, en != full, live[row] != j, holds_data[row]))
                     live[row] = z3.If(hit, z3.BitVecVal(j, lb), live[row])
+                    holds_data[row] = z3.Or(holds_data[row], hit)
             trig = z3.Or(trig, *now)
         for k, c in w.items():
             wit.setdefault(k, []).append(c)
@@ -304,7 +308,9 @@ def classify(v):
     if "ILVT" in cls and c.get("gran") is not None and row in written:
         if c.get("transp") != "none" and same_cycle:
             return "ilvt-granularity-transparent-bypass-ignores-mask"
-        return "ilvt-granularity-partial-write-moves-row-to-other-bank"
+        # the known finding is only ever reported through the marked query (see run); a counterexample of any OTHER query of these
+        # configurations was found in a history without the trigger and is a violation of its own
+        return "ilvt-granularity-outside-the-known-trigger"
     if cls == "MultiportXORILVTMemory" and c.get("init") != "zero" and row not in written:
         return "ilvt-data-init-in-lvt"
     if "ILVT" in cls and c.get("width", 0) < aw and c.get("transp") != "none" and written:
